@@ -30,7 +30,7 @@ PKGNAMES = {MOD: "multiproof", MOD + "/common/parallel": "parallel", MOD + "/com
 
 
 def workdir(tag):
-    d = os.path.join(VERIF, ".work", tag)
+    d = os.path.join(VERIF, ".work", os.environ.get("VERIF_RUN_ID", "shared"), tag)
     os.makedirs(d, exist_ok=True)
     return d
 
@@ -369,17 +369,28 @@ class Discharger:
         self.solver.push()
         self.solver.add(b_term(c))
         hint = getattr(self.ctx, "reach_hint", None)
-        r = self.solver.check()
-        if ob.kind == "reach" and hint and r == z3.unknown:
-            # satisfiable-side help only: try a concrete input; an unsat answer of the hinted query proves nothing
+        r = None
+        if ob.kind == "reach" and hint:
+            # satisfiable-side help only: try a concrete input first (a model of the hinted query is a model of the
+            # query); an unsat / unknown answer of the hinted query proves nothing and the plain query is asked
             self.solver.push()
             for n, val in hint.items():
                 if n in self.ctx.vars and is_term_(self.ctx.vars[n][0]) and not z3.is_bool(self.ctx.vars[n][0]):
                     self.solver.add(self.ctx.vars[n][0] == val)
             r2 = self.solver.check()
-            self.solver.pop()
             if r2 == z3.sat:
                 r = r2
+                try:
+                    ob.model = self.solver.model()
+                except z3.Z3Exception:
+                    ob.model = None
+            self.solver.pop()
+            if r == z3.sat:
+                ob.status = "sat"
+                self.solver.pop()
+                ob.time = time.time() - t0
+                return ob.status
+        r = self.solver.check()
         if r == z3.sat:
             ob.status = "sat"
             try:
